@@ -1,7 +1,7 @@
 (* C12 — Repair re-assembles features fragmented by split/join, changes
    nothing else.  The model is gts.Repair after the fix that merges fragments
    as units (mergeFragments). *)
-From GTS Require Import Base Arith Loc Seq Repair RepairProofs.
+From GTS Require Import Base Arith Loc Seq Repair RepairProofs RestoreProofs.
 Open Scope Z_scope.
 
 (* two fragments merge ONLY when the last range of the first ends exactly
@@ -39,8 +39,26 @@ Theorem C12_class_unchanged_when_nothing_merges : forall ff gg indices,
 Proof. exact repair_group_unchanged. Qed.
 Print Assumptions C12_class_unchanged_when_nothing_merges.
 
-(* PARTIAL: idempotence, restoration after slice*;concat and the table-level
-   "unchanged" clause are decided by the correspondence and the oracle. *)
+(* restoration: a range cut in two at any position c by Slice, the pieces put
+   back by Concat (piece_loc = Expand(b, b-L); Expand(0, -a); Expand(0, off)),
+   is re-assembled by the merge step exactly: coordinates and both partial
+   markers, on either strand, for source (force) and other features *)
+Theorem C12_range_restored : forall s e p5 p3 c L force, 0 <= s < c -> c < e <= L ->
+  exists a b, piece_loc (Ranged s e p5 p3) 0 c L 0 = Ok a /\ piece_loc (Ranged s e p5 p3) c L L c = Ok b /\
+    merge_fragments a b force = Some (Ranged s e p5 p3).
+Proof. exact range_restored. Qed.
+Print Assumptions C12_range_restored.
+
+Theorem C12_complement_range_restored : forall s e p5 p3 c L force, 0 <= s < c -> c < e <= L ->
+  exists a b, piece_loc (Complemented (Ranged s e p5 p3)) 0 c L 0 = Ok (Complemented a) /\
+    piece_loc (Complemented (Ranged s e p5 p3)) c L L c = Ok (Complemented b) /\
+    merge_fragments (Complemented a) (Complemented b) force = Some (Complemented (Ranged s e p5 p3)).
+Proof. exact complement_range_restored. Qed.
+Print Assumptions C12_complement_range_restored.
+
+(* PARTIAL: idempotence, restoration of multi-part features and after several
+   cuts, and the table-level "unchanged" clause are decided by the
+   correspondence and the oracle. *)
 
 (* restoration on a concrete table: a join cut inside its second range *)
 Example C12_example :
